@@ -251,6 +251,10 @@ func (in *Interp) globalCell(g *ssa.Global) *Cell {
 	// interface type are opaque unique objects (compared by identity only);
 	// pointers point to an unreadable object; anything else is unreadable.
 	name := path + "." + g.Name()
+	if mk, ok := foreignGlobals[name]; ok {
+		c.V = mk(in, elem)
+		return c
+	}
 	switch et := elem.Underlying().(type) {
 	case *types.Pointer:
 		pc := &Cell{T: et.Elem(), V: poison{name}, ID: in.newID()}
@@ -281,6 +285,10 @@ func (in *Interp) pkgInit(path string) bool {
 // stdInit: standard-library packages whose (cheap, pure) package initialisers
 // run for real so that their small lookup tables have their values.
 var stdInit = map[string]bool{"unicode/utf8": true, "strings": true, "bytes": true, "strconv": true, "path": true, "sort": true}
+
+// foreignGlobals: modelled initial values of individual foreign globals
+// (registered next to the intrinsics that need them).
+var foreignGlobals = map[string]func(in *Interp, elem types.Type) Value{}
 
 // poison marks an unmodelled foreign global; any use is inconclusive.
 type poison struct{ name string }
